@@ -1,6 +1,7 @@
 package checks
 
 import (
+	"context"
 	"errors"
 	"fmt"
 	"math/rand/v2"
@@ -32,8 +33,10 @@ type step struct {
 	Busy int64 `json:"busy,omitempty"` // ns slept before returning
 }
 
-var c02Errs = []error{nil, errE1, errE2, errE3, valErr{9}, fmt.Errorf("wrapped: %w", errE1), &ptrErr{9}}
-var c02ErrNames = []string{"nil", "E1", "E2", "E3", "valErr", "wrap(E1)", "ptrErr"}
+// the last two are what a function returns when a limit of its own (a per-call context, an HTTP client timeout) ends it:
+// errors that wrap the context package's sentinels although the execution itself is neither cancelled nor expired
+var c02Errs = []error{nil, errE1, errE2, errE3, valErr{9}, fmt.Errorf("wrapped: %w", errE1), &ptrErr{9}, fmt.Errorf("call: %w", context.DeadlineExceeded), fmt.Errorf("call: %w", context.Canceled)}
+var c02ErrNames = []string{"nil", "E1", "E2", "E3", "valErr", "wrap(E1)", "ptrErr", "wrap(DeadlineExceeded)", "wrap(Canceled)"}
 
 func (s step) String() string { return fmt.Sprintf("(%d,%s)", s.Res, c02ErrNames[s.Err]) }
 
@@ -133,7 +136,7 @@ func genRetryCase(r *rand.Rand) (retryCfg, []step) {
 	n = 1 + r.IntN(n)
 	var script []step
 	for i := 0; i < n; i++ {
-		st := step{Res: vk.Pick(r, 0, 0, 7, 9, 5), Err: vk.Pick(r, 0, 1, 1, 2, 3, 4, 5, 6)}
+		st := step{Res: vk.Pick(r, 0, 0, 7, 9, 5), Err: vk.Pick(r, 0, 1, 1, 2, 3, 4, 5, 6, 7, 8)}
 		if r.IntN(3) == 0 {
 			st.Err = 0
 		}
